@@ -39,6 +39,9 @@ def run(ctx: core.Ctx):
   long_models = {"sap_row/tile": (row, {"opt.broadphase": "sap_tile"}), "sap_row/segmented": (row, {"opt.broadphase": "sap_segmented"}), "sap_row/nxn": row}
   c13.run_generic(ctx, ["stepn", "keyarray", "step"], PROPS, {f"{k}/alone": v for k, v in long_models.items()}, depth=6, nbeh_quick=5, nbeh_thorough=40,
                   opts={"ref_nworld": 1, "tol": 1e-4})
+  # the same scene driven only by keyframe assignment and long runs: one world asleep while its neighbours in the batch collide
+  c13.run_generic(ctx, ["keyarray", "stepn"], PROPS, {"sap_row/tile/long": (row, {"opt.broadphase": "sap_tile"})}, depth=6, nbeh_quick=10, nbeh_thorough=60,
+                  opts={"ref_nworld": 1, "tol": 1e-4})
   ctx.assumptions += ["no overflow bit in these scenes; sleeping enabled only in the sap_row scenes",
                       "sap_row scenes (nv=84, sparse Newton) are compared at 1e-4 instead of bitwise: solver._jtdaj_groups_per_world partitions the Hessian "
                       "assembly by a function of nworld, so the order of its atomic sums - and the last bits of qacc - depend on the batch size (F14)"]
